@@ -124,6 +124,28 @@ theorem C11_executed_prefix (o : Obj St Name Arg Val Exc) (oneway : Bool) (s : S
   | false => rw [C11_refines, sequential_withLog]
   | true => rw [C11_oneway, sequential_withLog]
 
+/-- **Programs over several BatchProxy objects (record / copy / submit).**  For every object, start state, initial
+    call lists and program: running the program with real batches equals running it with every `submit` replaced
+    by the one-by-one run of exactly the calls recorded on that BatchProxy since its creation (by copy: the calls its
+    original held at that moment) or its last submit — state of the object and everything seen at every submit.
+    In particular a call recorded on a copy never runs when the original is submitted, and nothing runs twice. -/
+theorem C11_program (o : Obj St Name Arg Val Exc) :
+    ∀ (ops : List (BOp Name Arg)) (s : St) (lists : List (List (Name × Arg))),
+      runProg none o s lists ops = specProg o s lists ops := by
+  intro ops
+  induction ops with
+  | nil => intro s lists; simp [runProg, specProg]
+  | cons op ops ih =>
+    intro s lists
+    cases op with
+    | record i c => simp only [runProg, specProg]; exact ih _ _
+    | copy i => simp only [runProg, specProg]; exact ih _ _
+    | submit i ow =>
+      simp only [runProg, specProg]
+      cases ow with
+      | false => rw [C11_refines, ih]; simp
+      | true => rw [C11_oneway, ih]; simp
+
 /-- **The sequential reference is what it claims to be.**  A failing sequential run splits the call list
     into calls that all returned (`vs` are their values), the call that failed from the state reached, and
     an unexecuted rest.  (Guards against a vacuous reference.) -/
@@ -299,6 +321,9 @@ example : clientBatch none counter false 0 [(0, 1), (5, 0), (0, 1)] = (1, .submi
 example : clientBatch none counter true 0 [(0, 1), (1, 0), (0, 1)] = (2, .nothing) := by decide
 example : clientBatch none counter false 0 [(0, 1), (0, 1)] = (2, .stream [1, 2] none) := by decide
 example : (clientBatch none (withLog counter) false (0, []) [(0, 1), (1, 0), (0, 1)]).1 = (2, [(0, 1), (1, 0)]) := by decide
+/-- a program: record on 0, copy it, record on the copy, submit the original (runs only its own call), submit the copy -/
+example : runProg none counter 0 [[]] [.record 0 (0, 1), .copy 0, .record 1 (0, 1), .submit 0 false, .submit 1 false] =
+    (2, [.stream [1] none, .stream [2] (some 7)]) := by decide
 /-- hypotheses of `C11_stops` are satisfiable with a non-empty prefix and a non-empty rest -/
 example : sequential counter 0 [(0, 1)] = (1, [1], none) ∧ (∀ v, (serverCall counter 1 (1, 0)).2 ≠ CallOut.ok v) := by
   refine ⟨by decide, ?_⟩
